@@ -173,6 +173,10 @@ CURATED = [
      "one link file hides an entry another renames", {"must_not_list": ["f.txt"], "must_list": ["g.txt", "b", "c.html"]}),
     ({"f.txt": b"f\n", "g.txt": b"g\n", ".names": b"Type=X\nPath=./f.txt\n\nType=X\nPath=./f.txt\n\nType=X\nPath=./gone.txt\n", ".more": b"Type=X\nPath=./f.txt\n", "k.txt": b"k\n"},
      "the same entry hidden twice in one link file and once more in another", {"must_not_list": ["f.txt"], "must_list": ["g.txt", "k.txt"]}),
+    ({"f.txt": b"f\n", "g.txt": b"g\n", ".names": b"Type=X\nPath=./f.txt\n\nPath=./g.txt\nName=Caf\xe9 in Latin-1\n", "h.txt": b"h\n", "sub": {"x": b"x"}},
+     "a link file that hides an entry and also contains a byte that is not UTF-8", {"must_not_list": ["f.txt"], "must_list": ["g.txt", "h.txt", "sub"]}),
+    ({"f.txt": b"f\n", "b": {"x": b"x"}, "c": {"y": b"y"}, ".cap": {"b": b"Type=X\n", "f.txt": b"Type=-\n"}, "k.txt": b"k\n"},
+     ".cap files hiding a directory and a file", {"must_not_list": ["b", "f.txt"], "must_list": ["c", "k.txt"]}),
     ({"1.txt": b"1", "2.txt": b"2", "3.txt": b"3", ".names": b"Path=./1.txt\nNumb=3\n\nPath=./2.txt\nNumb=3\n\nPath=./3.txt\nNumb=-1\n", ".cap": {"2.txt": b"Name=Capped\n"}, "z": {}},
      "equal Numb values, a .cap override and a negative number"),
 ]
